@@ -322,6 +322,14 @@ func c11MakePartition(r *prng.R) *c11In {
 	for i, n := 0, r.Intn(7); i < n; i++ {
 		t.Outs = append(t.Outs, c11Output(r, &big))
 	}
+	if r.Chance(1, 40) { // output / input counts around the one-byte varint limit
+		t.Outs = append(t.Outs, mOuts{Sats: 1, Script: gen.P2PKH(r.Bytes(20)), Repeat: prng.Pick(r, []int{249, 250, 251, 252, 253, 300})})
+	}
+	if r.Chance(1, 60) {
+		for k, n := 0, prng.Pick(r, []int{250, 252, 253, 254}); k < n; k++ {
+			t.Ins = append(t.Ins, gen.In{TxID: r.Bytes(32), Vout: uint32(k), Seq: gen.U32(r), PrevScript: gen.P2PKH(r.Bytes(20)), Unlock: []byte{}})
+		}
+	}
 	if len(t.Ins) == 0 && len(t.Outs) == 0 && t.LockTime == 0xef000000 {
 		t.LockTime = 0
 	}
